@@ -27,7 +27,7 @@ PROPS = {
                         "`AisleConf` equality is taken on freshly parsed configurations (the private `len` cache cell is 0); `ingredients_info` is the lookup"],
     },
     "C12": {
-        "gen": [CONSTS],
+        "gen": [CONSTS, UNITS, UNITS_ALT],
         "trusted_base": COMMON_TB + [FLOAT_TB,
             "translators/gen_consts.py (scrapes DENOMS, FIX_RATIO, the 1e-10 tolerance from src/quantity.rs)",
             "modelled, not verified: std f64 trunc/round/fract/as-casts (Lean Float ops are assumed to be the same IEEE operations)"],
